@@ -520,7 +520,11 @@ void vf_case(Ctx& ctx, uint64_t i) {
   // long paths (1 case in 2500): 1500-9000 points on a convex arc with steps much longer than the pattern, so that every
   // strip matters; exercises any size-dependent code path of the implementation (sectioning, batching, reserve sizes)
   if (i % 2500 == 1777 && magexp >= 30) {
-    const int K = (int)std::exp(r.real(std::log(1500.0), std::log(9000.0)));
+    // one long case in three is "very long" (9000-30000 points, up to 240000 parallelograms): thresholds on the number
+    // of parallelograms rather than on the number of path points (round 4, r4_c19_1: 65536 / pattern length)
+    const bool very = (i / 2500) % 3 == 1;
+    const int K = very ? (int)std::exp(r.real(std::log(9000.0), std::log(30000.0))) : (int)std::exp(r.real(std::log(1500.0), std::log(9000.0)));
+    if (very) ctx.count("cases_with_a_very_long_path");
     const double step = r.real(60, 400), curv = r.real(2e-5, 2e-4);
     pat = gen_pattern(r, r.irange(0, 1), r.irange(3, 8), 0, 0, r.real(10, 40));
     path.clear(); double x = -0.5 * K * step, y = 0;
